@@ -2228,9 +2228,14 @@ class Exec(object):
     def eval_default(self, fref, dnode):
         self.frames.append(Frame(None, {}, fref.module, closure=fref.closure or []))
         try:
-            return self.eval(dnode)
+            v = self.eval(dnode)
         finally:
             self.frames.pop()
+        if isinstance(v, (PList, PDict, PSet)) and getattr(v, "origin", None) is None:
+            # a mutable default is ONE object shared by every call that omits the argument: it is function-level
+            # state, so writing to it (or returning it) is a frame / freshness matter, not a local one
+            v.origin = "module:%s.__defaults__" % fref.fq
+        return v
 
     def call_function(self, fref, args, kwargs, line):
         eng = self.engine
